@@ -27,7 +27,8 @@ product of the dimensions it names, all other dimensions at a base value (family
   O order      container orders the format leaves free: 3 types x 2 entries x the 4 configurations, type chunks of a type in
                EVERY one of the 24 configuration orders x chunk order {typeSpec+types grouped, all typeSpecs first,
                type chunks interleaved across types} x chunk encoding x {1, 2} packages
-  M maxima     one representative at the large end of each field the writer controls: entry index 0x0233 (sparse / dense /
+  M maxima     one representative at the large end of each field the writer controls: entry OFFSET (sparse offset/4 =
+               0xFFFF, which is a real offset; off16 0xFFFE next to a 0xFFFF hole; dense 0x3FFFC and 0x50000), entry index 0x0233 (sparse / dense /
                off16, with a compact entry), key index > 255 and > 0xFFFF boundary for compact keys, type id 255, strings of
                127/128/0x7FFF (UTF-8) and 0x7FFF/0x8000 (UTF-16) units, 40 packages-worth of unused pool prefix
   E pairs      16 global dimensions (packages, type set, entry presence, configuration set, staggered configurations, entry
@@ -136,7 +137,8 @@ def table_from_spec(spec):
             enc = t.get("enc", "dense")
             if isinstance(enc, dict):
                 enc = {_cfg(c, size): v for c, v in enc.items()}
-            types.append(G.Type(t["n"], entries, enc, bool(t.get("trim")), t.get("lay", "index")))
+            types.append(G.Type(t["n"], entries, enc, bool(t.get("trim")), t.get("lay", "index"),
+                                {int(k): v for k, v in t.get("at", {}).items()}))
         pkgs.append(G.Package(p["id"], p["name"], types, bool(p.get("tu8", 0)), bool(p.get("ku8", 1)),
                               p.get("corder", "grouped"), p.get("cfgorder", "first")))
     return G.Table(pkgs, bool(spec.get("utf8", 1)), ["unused%d" % i for i in range(spec.get("prefix", 0))])
@@ -612,7 +614,7 @@ def build_o(p):
     return {"pkgs": pkgs}
 
 
-M_CASES = ["bigindex", "manykeys", "typeid255", "longstrings8", "longstrings16", "bigprefix"]
+M_CASES = ["maxoffset", "bigindex", "manykeys", "typeid255", "longstrings8", "longstrings16", "bigprefix"]
 
 
 def fam_m(ctx):
@@ -627,7 +629,20 @@ def build_m(p):
     cfgs = ["", "en"]
     spec = {"pkgs": [{"id": 0x7F, "name": "com.a", "types": []}]}
     types = spec["pkgs"][0]["types"]
-    if case == "bigindex":
+    if case == "maxoffset":
+        # the large end of the entry-offset fields, reached by zero padding inside the entry area:
+        #   sparse: offset/4 = 0xFFFF is a real offset (there is no 'no entry' marker in ResTable_sparseTypeEntry)
+        #   off16:  offset/4 = 0xFFFE is the largest real offset, 0xFFFF (entry 2, a hole) means 'no entry'
+        #   dense:  32-bit offsets 0x3FFFC and beyond what 16 bits * 4 can express
+        top = {"sparse": 0xFFFF * 4, "off16": 0xFFFE * 4, "dense": 0xFFFF * 4}[enc]
+        e = [_entry(cells, "k0", "p-str", cfgs), _entry(cells, "k1", "c-int", cfgs), None,
+             _entry(cells, "k3", "p-str", cfgs), _entry(cells, "k4", "p-int", cfgs, 0)]
+        at = {"3": top - 16, "4": top}
+        if enc == "dense":
+            e.append(_entry(cells, "k5", "c-str", cfgs))
+            at["5"] = 0x50000
+        types.append({"n": "string", "enc": enc, "e": e, "at": at})
+    elif case == "bigindex":
         n = 0x0234
         e = [None] * n
         for i, kind in ((0, "p-str"), (1, "c-str"), (0x00FF, "c-int"), (0x0100, "p-int"), (n - 2, "c-str"), (n - 1, "p-ref")):
@@ -743,6 +758,8 @@ def _extras(spec, ref, rid=None, wanted=False):
             ex.add("enc=" + enc)
         if t.get("trim"):
             ex.add("trim")
+        if t.get("at"):
+            ex.add("maxoffset")
         if t.get("lay", "index") != "index" and t["e"]:
             ex.add("layout=" + t["lay"])
         if not t["e"]:
@@ -762,7 +779,7 @@ def make_key(aspect, feature, extras):
 def split_key(key):
     parts = key.split("|")
     # the feature itself may contain '|' between kinds; extras are the trailing tokens from a closed vocabulary
-    vocab = ("pkgs2", "pools", "csize", "prefix", "flags", "multicfg", "trim", "typegap", "holes", "wanted", "cfgorder")
+    vocab = ("pkgs2", "pools", "csize", "prefix", "flags", "multicfg", "trim", "typegap", "holes", "wanted", "cfgorder", "maxoffset")
     ex = []
     while len(parts) > 1 and (parts[-1] in vocab or parts[-1].startswith(("enc=", "layout=", "chunks="))):
         ex.append(parts.pop())
